@@ -106,7 +106,7 @@ TraceNext ==
               /\ UNCHANGED <<hdr, prior, planned, injected, crashed, msgs, retv, created, logged, nalloc, natural, lamb>>
          [] e.ev = "Prior" -> prior' = e.rows /\ UNCHANGED <<hdr, pre, planned, injected, crashed, msgs, retv, created, logged, nalloc, natural, lamb>>
          [] e.ev = "Ext" ->
-              /\ injected' = (IF e.class = "injected" THEN e.target \o "." \o e.method ELSE injected)
+              /\ injected' = (IF e.class = "injected" /\ injected = "none" THEN e.target \o "." \o e.method ELSE injected)
               /\ planned' = (IF e.target = "rmgr" /\ e.method = "Alloc" /\ e.class = "ok"
                              THEN [k \in DOMAIN planned \cup {e.node} |-> IF k = e.node THEN Get(planned, e.node, 0) + e.n ELSE planned[k]] ELSE planned)
               /\ nalloc' = (IF e.target = "rmgr" /\ e.method = "Alloc" /\ e.class = "ok" THEN Append(nalloc, e.n) ELSE nalloc)
@@ -115,7 +115,7 @@ TraceNext ==
               /\ (IF Has(e, "obs") /\ ~e.obserr THEN Report(ObsOK(e, planned'), "C13", l, "count-out-of-bounds-during-deployment/" \o e.target \o "." \o e.method \o "/" \o Where) ELSE TRUE)
               /\ (IF e.target = "lock" /\ e.class # "injected" /\ Has(e, "cls") THEN Report(LockOrderOK(e), "C20", l, "lock-out-of-order/" \o OpKind) ELSE TRUE)
               \* a call that failed by itself before the injected one: the run has two failures, outside "single failure"
-              /\ natural' = (IF e.class = "err" /\ injected = "none" /\ e.target \in {"store", "rmgr", "engine", "wal"} /\ natural = "none"
+              /\ natural' = (IF e.class = "err" /\ injected = "none" /\ e.target \in {"store", "plugin", "engine", "wal"} /\ natural = "none"
                               THEN e.target \o "." \o e.method ELSE natural)
               /\ UNCHANGED <<hdr, pre, prior, crashed, msgs, retv, created>>
          [] e.ev = "EngineCreated" -> created' = created + 1 /\ UNCHANGED <<hdr, pre, prior, planned, injected, crashed, msgs, retv, logged, nalloc, natural, lamb>>
